@@ -531,7 +531,17 @@ pub fn load_known(prop: &str) -> Vec<KnownFinding> {
 
 // --- property driver ---------------------------------------------------------------------------
 
+/// a coverage-guided libFuzzer stage (thorough tier only)
+pub struct FuzzStage {
+    pub target: &'static str,
+    pub runs: u64,
+    pub max_len: u32,
+    /// writes the seed corpus (generator-made valid inputs) into the directory
+    pub seed_corpus: fn(&std::path::Path),
+}
+
 pub struct Property {
+    pub fuzz: Vec<FuzzStage>,
     pub id: &'static str,
     pub rule: &'static str,
     pub assumptions: Vec<&'static str>,
@@ -624,6 +634,18 @@ pub fn run_property(prop: &Property, tier: Tier, seed: u64, only_sub: Option<&st
         reports.push(rep);
     }
 
+    // 2b. coverage-guided stages (thorough only): libFuzzer targets with the oracle inside the target
+    let mut fuzz_reports: Vec<Value> = vec![];
+    if tier == Tier::Thorough && only_sub.is_none() {
+        for st in &prop.fuzz {
+            let (rep, viol) = run_fuzz_stage(prop.id, st, seed);
+            if let Some(v) = viol {
+                violations.push(v);
+            }
+            fuzz_reports.push(rep);
+        }
+    }
+
     // 3. evidence
     let evaluations: u64 = reports.iter().map(|r| r.evaluations).sum::<u64>() + regress_n;
     let mut distinct: HashSet<u64> = HashSet::new();
@@ -663,6 +685,7 @@ pub fn run_property(prop: &Property, tier: Tier, seed: u64, only_sub: Option<&st
             "exhaustive": all_exhaustive,
             "explanation": prop.explanation,
             "sub_checks": per_sub,
+            "fuzz_stages": fuzz_reports,
             "regress_inputs_replayed": regress_n,
             "known_findings_hit": known_hits.iter().map(|(k,(n,m))| json!({"sig":k,"cases":n,"example":m})).collect::<Vec<_>>(),
         },
@@ -704,6 +727,13 @@ pub fn run_property(prop: &Property, tier: Tier, seed: u64, only_sub: Option<&st
         for v in &violations {
             let sig = &v.failures[0].sig;
             if !seen.insert(sig.clone()) {
+                continue;
+            }
+            if let Some(p) = v.case.get("artifact").and_then(|a| a.as_str()) {
+                for f in &v.failures {
+                    eprintln!("  [{}] {}: {}", v.sub, f.sig, f.msg);
+                }
+                println!("VIOLATION property={} replay={}", prop.id, p);
                 continue;
             }
             let path = format!("/verif/replays/{}-{}.json", prop.id, sanitize(sig));
@@ -768,6 +798,79 @@ pub fn replay_property(prop: &Property, path: &str) -> i32 {
             2
         }
     }
+}
+
+fn run_fuzz_stage(prop: &str, st: &FuzzStage, seed: u64) -> (Value, Option<Violation>) {
+    use std::process::Command;
+    let t0 = Instant::now();
+    let corpus = std::path::PathBuf::from(format!("/verif/.target/fuzz-corpus/{}-{}", prop, st.target));
+    let _ = std::fs::remove_dir_all(&corpus);
+    let _ = std::fs::create_dir_all(&corpus);
+    (st.seed_corpus)(&corpus);
+    let seeds = std::fs::read_dir(&corpus).map(|d| d.count()).unwrap_or(0);
+    let artifacts = format!("/verif/replays/fuzz-{}-{}/", prop, st.target);
+    let _ = std::fs::create_dir_all(&artifacts);
+    let build = Command::new("cargo")
+        .args(["+nightly", "fuzz", "build", "--fuzz-dir", "/verif/fuzz", st.target])
+        .current_dir("/verif/harness")
+        .env("CARGO_NET_OFFLINE", "true")
+        .output();
+    let built = matches!(&build, Ok(o) if o.status.success());
+    if !built {
+        eprintln!("[{prop}] fuzz stage {}: build failed, stage skipped (inconclusive, not a violation)", st.target);
+        return (json!({"target": st.target, "status": "build-failed"}), None);
+    }
+    let out = Command::new("cargo")
+        .args(["+nightly", "fuzz", "run", "--fuzz-dir", "/verif/fuzz", st.target, corpus.to_str().unwrap(), "--"])
+        .arg(format!("-runs={}", st.runs))
+        .arg(format!("-seed={}", (seed % 0xffff_ffff).max(1)))
+        .arg(format!("-max_len={}", st.max_len))
+        .arg("-len_control=0")
+        .arg("-print_final_stats=1")
+        .arg("-timeout=20")
+        .arg(format!("-artifact_prefix={artifacts}"))
+        .current_dir("/verif/harness")
+        .env("CARGO_NET_OFFLINE", "true")
+        .output();
+    let Ok(out) = out else {
+        return (json!({"target": st.target, "status": "could-not-run"}), None);
+    };
+    let text = format!("{}{}", String::from_utf8_lossy(&out.stdout), String::from_utf8_lossy(&out.stderr));
+    let stat = |k: &str| -> u64 {
+        text.lines().find(|l| l.contains(k)).and_then(|l| l.split_whitespace().last()).and_then(|v| v.parse().ok()).unwrap_or(0)
+    };
+    let executed = stat("stat::number_of_executed_units");
+    let cov = text.lines().rev().find(|l| l.contains(" cov: ")).map(|l| l.trim().to_string()).unwrap_or_default();
+    eprintln!(
+        "[{prop}] fuzz  {:<28} executed={executed:<9} seeds={seeds} {:.1}s exit={:?} | {}",
+        st.target,
+        t0.elapsed().as_secs_f64(),
+        out.status.code(),
+        cov.chars().take(90).collect::<String>()
+    );
+    let mut viol = None;
+    if !out.status.success() {
+        let artifact = text
+            .lines()
+            .find_map(|l| l.split("Test unit written to ").nth(1).map(|p| p.trim().to_string()));
+        let reason = text.lines().find(|l| l.contains("panicked at") || l.contains("ERROR: libFuzzer")).unwrap_or("").trim().to_string();
+        if let Some(a) = artifact {
+            let kind = if reason.contains("timeout") || a.contains("timeout-") { "timeout" } else if a.contains("oom-") { "oom" } else { "crash" };
+            if kind == "crash" {
+                viol = Some(Violation {
+                    sub: format!("fuzz:{}", st.target),
+                    case: json!({"artifact": a}),
+                    failures: vec![Failure { sig: format!("fuzz.{}/{}", st.target, kind), msg: reason.clone() }],
+                });
+            } else {
+                eprintln!("[{prop}] fuzz stage {}: {kind} reported by libFuzzer ({a}): inconclusive, not a violation", st.target);
+            }
+        }
+    }
+    (
+        json!({"target": st.target, "status": if out.status.success() { "ok" } else { "failed" }, "executed_units": executed, "seed_corpus_files": seeds, "runs_requested": st.runs, "last_status_line": cov, "wall_s": t0.elapsed().as_secs_f64()}),
+        viol,
+    )
 }
 
 pub fn prop_sub<V>(
